@@ -6,7 +6,7 @@ class Prop:
     id = "C21"
     level = "exploration"
     engine = "VT"
-    quick_runs = 80000
+    quick_runs = 250000
     thorough_runs = 3000000
     kind = "behavior"
     rule = ("seeded call histories (2-12 calls: subscribe with/without error handler, unsubscribe, on_next with falsy and ordinary values, "
